@@ -182,7 +182,7 @@ func (r *renderer) line(text string) (int, int) {
 			}
 		}
 		if r.rng.Float64() < r.lay.Comment {
-			c := "# a comment: with [brackets] <- and -> arrows"
+			c := []string{"# a comment: with [brackets] <- and -> arrows", "#", "# ", "#!type X:", "##"}[r.rng.Intn(5)]
 			if r.rng.Intn(2) == 0 {
 				c = lead + c
 			}
